@@ -64,6 +64,8 @@ def c11():
 
 def c12():
     qs = [q for q in enc_queries('C12') if 'text-' not in q.name]
+    qs.append(Query('enc-decode-all', ENC(), 'h_decode_all', unwind=26, about='one key of 22 components: every fixed-size type (i8..u64, float, double) in two orders, each followed by another component; decoded in encoding order, all values',
+                    bounds={'schema': '(i8,u8,i16,u16,i32,u32,i64,u64,f32,f64) forwards, backwards, then (i8,u8)'}))
     qs.append(Query('enc-growth', U('enc.cpp'), 'h_growth', unwind=40, unwindset=['m_memcpy.0:300'], about='34 symbolic u64 components crossing the 256-byte internal buffer; reset() reuse',
                     bounds={'components': 34}, checks='pointer'))
     return Check('C12', 'model_checking', qs,
